@@ -240,6 +240,11 @@ def ob_totp_one_time(chk, ir):
     for p1 in ps1:
         if p1.status in ('unsupported', 'unwind', 'panic'): chk.absorb(ex, ps1); chk.obligation('totp-one-time', '-', 'inconclusive', p1.result); return
         if not z3.is_true(z3.simplify(p1.result[0])): continue
+        # an accepted code is one the validator accepted (for an enabled device of that user) on this very path
+        vals = p1.evs('totp.validate')
+        r0, m0 = ex.model_fresh(p1.pc, z3.Not(z3.Or([e['ok'] for e in vals] + [z3.BoolVal(False)])), 30000)
+        if r0 != 'unsat':
+            if chk.violation('totp-one-time', 'validateUserTOTP/accepts-without-validation', 'validateUserTOTP reports success for a code that the TOTP validation did not accept on that path', model_dict(m0) if m0 is not None else None) == 'new': verdict = 'violated'
         from_cache = any(not ex.feasible(p1.pc, z3.Not(e['fromCache'])) for e in p1.evs('load'))
         saved = bool(p1.evs('save'))
         s2 = p1.fork()
